@@ -337,7 +337,7 @@ Lemma accept_l : forall rank m ids cs src t, wf rank src -> well_formed_request 
   agrees src t -> stored t = [] -> calibs t = [] -> exists t', exim m ids cs src t = (t', Ok).
 Proof.
   intros rank m ids cs src t W R Ha Hst Hca. pose proof R as (R1 & R2 & R3 & R4).
-  destruct (export_ok rank ids cs src W R) as (b & Ex). unfold exim. rewrite Ex.
+  destruct (export_ok rank ids cs src W R) as (b & Ex). unfold exim, exim_v. rewrite Ex.
   pose proof (export_dsets _ _ _ _ Ex) as Hds. pose proof (export_order _ _ _ _ Ex) as Hord.
   pose proof Ex as Ex'. apply export_shape in Ex'. destruct Ex' as (order & Et & _ & _ & _ & Eb).
   set (plainl := filter (fun c => match lookup c (colls src) with Some CHAINED => false | _ => true end) (exp_cnames ids cs src)) in *.
@@ -380,7 +380,7 @@ Proof.
         split; [apply saved_iff; exact Hsx | auto].
       + left. apply filter_In. split; [apply saved_iff; exact Hsx|]. rewrite Hk. destruct k; try reflexivity; discriminate.
     - intros x Hx. apply (P2 (x, kd src x, [])). apply in_map_iff. exists x. auto. }
-  destruct Er as (t0 & Er & A0). unfold import_. rewrite Er.
+  destruct Er as (t0 & Er & A0). unfold import_, import_v. rewrite Er.
   pose proof (register_same _ _ _ _ Er) as (Sd & Sr & Sst & Stg & Sca).
   pose proof (register_types _ _ _ Er) as Rty.
   destruct (register_spec b t t0) as (_ & Pk & _ & _); [rewrite Hce, Hmap; exact Hno | exact Er |].
@@ -391,7 +391,7 @@ Proof.
       rewrite Hk. destruct k; try reflexivity. contradiction Hnc; reflexivity. }
     apply has_key_lookup in Hh. destruct Hh as [k' Hk']. pose proof (A2 _ _ Hk') as Hk''. congruence. }
   (* load *)
-  unfold load. set (t1 := add_dims (b_dims b) t0).
+  unfold load, load_v. set (t1 := add_dims (b_dims b) t0).
   destruct (add_dims_other (b_dims b) t0) as (D1 & D2 & D3 & D4 & D5 & D6 & D7). fold t1 in D1, D2, D3, D4, D5, D6, D7.
   assert (Himp : forall d, In d (map fst (b_dsets b)) -> importable d t1).
   { intros d Hd. apply Hds in Hd. destruct Hd as [Hd Hm]. destruct (wf_ds rank src W d Hd) as (W1 & W2 & W3). repeat split.
